@@ -473,6 +473,216 @@ class D07(Extra):
         return 'ok', None
 
 
+# ---------------------------------------------------------------- C12
+class D12(Extra):
+    RULE = ('dense-time modular programs (1-3 named sub-specifications): after dense offline evaluate() and (past-time programs) dense online update(), get_value of every '
+            'assertion / sub-specification name must be exactly the result of a stand-alone specification of the inlined formula on the same data, and get_value of '
+            'every variable the supplied samples')
+
+    def gen(self, rng, tier):
+        from harness.modular import decompose
+        out = []
+        n = 100 if tier == 'quick' else 1500
+        for _ in range(n):
+            nv = rng.choice([1, 2, 2])
+            f = gen_formula(rng, nv, rng.choice([2, 2, 3]), future=(rng.random() < 0.5))
+            if fml.size(f) > 24 or fml.size(f) < 4 or not fml.fvars(f):
+                continue
+            subs, main = decompose(rng, f, rng.choice([1, 1, 2, 3]))
+            if not subs:
+                continue
+            nv = need_vars(f, nv)
+            out.append({'f': f, 'nv': nv, 'sigs': gen_sigs(rng, nv, minn=1), 'subs': [[nm, b, s_] for (nm, b, s_) in subs], 'main': main,
+                        'style': rng.choice(['add_sub_spec', 'one_text']), 'fkey': fml.to_sx(f), 'n': 0})
+        return out
+
+    def normalize(self, c):
+        from harness import shrink
+        c = dict(c)
+        c['main'] = shrink.detuple(c['main'])
+        c['subs'] = [[nm, shrink.detuple(b), shrink.detuple(s_)] for nm, b, s_ in c['subs']]
+        return c
+
+    def names(self, c):
+        return [(nm, s_) for (nm, b, s_) in c['subs']] + [('out', c['f'])]
+
+    def modular(self, c):
+        subtexts = ['%s = %s;' % (nm, text(b)) for (nm, b, s_) in c['subs']]
+        main = 'out = ' + text(c['main'])
+        if c.get('style') == 'one_text':
+            return {'spec': '\n'.join(subtexts) + '\n' + main + ';'}
+        return {'subspecs': subtexts, 'spec': main}
+
+    def online(self, c):
+        return not fml.has_future(c['f'])
+
+    def model_lines(self, c):
+        return []
+
+    def impl_cases(self, c):
+        used = fml.fvars(c['f'])
+        data = [[fml.VARS[i], dense.to_impl(c['sigs'][i])] for i in used]
+        names = self.names(c)
+        gv = [['get_value', nm] for (nm, _) in names] + [['get_value', fml.VARS[i]] for i in used]
+        base = {'vars': fml.VARS[:c['nv']]}
+        out = [dict(base, monitor='dense-offline', calls=[['evaluate', data]] + gv, **self.modular(c))]
+        for (nm, s_) in names:
+            su = fml.fvars(s_)
+            out.append(dict(base, monitor='dense-offline', spec='out = ' + text(s_), calls=[['evaluate', [[fml.VARS[i], dense.to_impl(c['sigs'][i])] for i in su]]]))
+        if self.online(c):
+            out.append(dict(base, monitor='dense-online', calls=[['update', data]] + gv, **self.modular(c)))
+            for (nm, s_) in names:
+                su = fml.fvars(s_)
+                out.append(dict(base, monitor='dense-online', spec='out = ' + text(s_), calls=[['update', [[fml.VARS[i], dense.to_impl(c['sigs'][i])] for i in su]]]))
+        return out
+
+    def judge(self, c, mlines, ires):
+        names = self.names(c)
+        used = fml.fvars(c['f'])
+        det = {'modular': self.modular(c), 'signals_ticks': c['sigs'], 'tick_s': dense.SCALE}
+        k = len(names)
+        groups = [('dense-offline', ires[0], ires[1:1 + k])]
+        if self.online(c):
+            groups.append(('dense-online', ires[1 + k], ires[2 + k:2 + 2 * k]))
+        for (mon, mod, alone) in groups:
+            if mod['setup']['status'] != 'ok':
+                return 'violation', dict(det, monitor=mon, observed=mod['setup'])
+            if any(a['setup']['status'] != 'ok' or a['calls'][0]['status'] != 'ok' for a in alone):
+                return 'dropped', None       # the stand-alone specification itself fails (C04/C05/C17 territory)
+            if mod['calls'][0]['status'] != 'ok':
+                if mon == 'dense-online' and D06().const_binary(c['f']):
+                    continue
+                return 'violation', dict(det, monitor=mon, expected='the modular program evaluates (its stand-alone parts do)', observed=mod['calls'][0])
+            for j, (nm, s_) in enumerate(names):
+                r = mod['calls'][1 + j]
+                exp = alone[j]['calls'][0]['value']
+                if r['status'] != 'ok' or r['value'] != exp:
+                    return 'violation', dict(det, monitor=mon, name=nm, formula='out = ' + text(s_), expected={'stand-alone': exp}, observed=r)
+            for j, i in enumerate(used):
+                r = mod['calls'][1 + k + j]
+                exp = json.loads(json.dumps(dense.to_impl(c['sigs'][i])))
+                if r['status'] != 'ok' or [[float(a), float(b)] for a, b in r['value']] != exp:
+                    return 'violation', dict(det, monitor=mon, name=fml.VARS[i], expected={'supplied samples': exp}, observed=r)
+        return 'ok', None
+
+    def key(self, c):
+        return json.dumps([c['subs'], c['main'], c['sigs']], default=str)
+
+    def features(self, c):
+        return ['dense', 'dense-nsubs_%d' % len(c['subs'])]
+
+
+# ---------------------------------------------------------------- C08
+UNS = {'s': 10**9, 'ms': 10**6, 'us': 10**3, 'ns': 1}
+
+
+def dense_bound(rng, b, e, default_unit, style):
+    """[b, e] ticks (0.25 s each) spelled in a unit notation; style: plain (numbers in the default unit) / both / begin / end"""
+    from harness.c08 import dec
+    bn, en = b * 250 * 10**6, e * 250 * 10**6            # nanoseconds
+    sep = rng.choice([',', ':'])
+    if style == 'plain':
+        return '[%s%s%s]' % (dec(bn, default_unit), sep, dec(en, default_unit))
+    ub, ue = rng.choice(['s', 'ms', 'us']), rng.choice(['s', 'ms', 'us'])
+    if style == 'both':
+        return '[%s%s%s%s%s]' % (dec(bn, ub), ub, sep, dec(en, ue), ue)
+    if style == 'begin':
+        return '[%s%s%s%s]' % (dec(bn, ub), ub, sep, dec(en, ub))
+    return '[%s%s%s%s]' % (dec(bn, ue), sep, dec(en, ue), ue)
+
+
+class D08(Extra):
+    RULE = ('dense-time formulas with bounded operators in 4 unit notations (default unit s or ms, bounds as plain numbers or with explicit units on both / one end; '
+            'time-stamps given in the default unit): dense offline evaluate() and (past-time) dense online update() must denote the same function of physical time')
+
+    def gen(self, rng, tier):
+        out = []
+        n = 100 if tier == 'quick' else 1500
+        P = ('pred', 'geq', ('var', 0), ('const', 1))
+        base = [('oncet', 2, 4, P), ('histt', 0, 4, P), ('evt', 2, 6, P), ('alwt', 0, 2, P), ('sincet', 2, 4, P, ('not', P)), ('untilt', 2, 4, P, ('not', P))]
+        items = [(f, 1) for f in base for _ in range(2)]
+        for _ in range(n):
+            nv = rng.choice([1, 2])
+            f = gen_formula(rng, nv, rng.choice([1, 2, 2, 3]), unbounded_future=False)
+            if fml.size(f) > 20 or not fml.fvars(f) or not (fml.ops(f) & (fml.TUN | fml.TBIN)):
+                continue
+            items.append((f, nv))
+        for (f, nv) in items:
+            nv = need_vars(f, nv)
+            variants = []
+            for (du, style) in [('s', 'plain'), ('s', rng.choice(['both', 'begin', 'end'])), ('ms', 'plain'), ('ms', rng.choice(['both', 'begin', 'end'])),
+                                (rng.choice(['us', 'ms']), rng.choice(['both', 'plain']))]:
+                r = __import__('random').Random(rng.randrange(1 << 30))
+                variants.append({'unit': du, 'spec': 'out = ' + fml.to_text(f, lambda b, e: dense_bound(r, b, e, du, style)), 'style': style})
+            out.append({'f': f, 'nv': nv, 'sigs': gen_sigs(rng, nv, minn=1), 'variants': variants, 'n': 0})
+        return out
+
+    def model_lines(self, c):
+        return []
+
+    def scaled(self, sig, unit):
+        k = 10**9 // UNS[unit]
+        return [[t * dense.SCALE * k, float(v)] for t, v in sig]
+
+    def impl_cases(self, c):
+        used = fml.fvars(c['f'])
+        out = []
+        for v in c['variants']:
+            data = [[fml.VARS[i], self.scaled(c['sigs'][i], v['unit'])] for i in used]
+            base = {'vars': fml.VARS[:c['nv']], 'spec': v['spec'], 'unit': v['unit']}
+            out.append(dict(base, monitor='dense-offline', calls=[['evaluate', data]]))
+            if not fml.has_future(c['f']):
+                out.append(dict(base, monitor='dense-online', calls=[['update', data]]))
+        return out
+
+    def judge(self, c, mlines, ires):
+        per = 1 if fml.has_future(c['f']) else 2
+        t0, tmax, tmin = domain(c['f'], c['sigs'])
+        det = {'signals_ticks': c['sigs'], 'tick_s': dense.SCALE, 'spellings': [(v['unit'], v['spec']) for v in c['variants']]}
+        if any(c['sigs'][i][0][0] != 0 for i in fml.fvars(c['f'])):
+            return 'dropped', None
+        ref = [None] * per
+        for vi, v in enumerate(c['variants']):
+            k = 10**9 // UNS[v['unit']]
+            for m in range(per):
+                i = ires[vi * per + m]
+                mon = 'dense-offline' if m == 0 else 'dense-online'
+                d2 = dict(det, monitor=mon, default_unit=v['unit'], spelling=v['spec'])
+                if i['setup']['status'] != 'ok':
+                    return 'violation', dict(d2, observed=i['setup'])
+                r = i['calls'][0]
+                if r['status'] != 'ok':
+                    if m == 1 and D06().const_binary(c['f']):
+                        continue
+                    return 'violation', dict(d2, observed=r)
+                val = []
+                for t, x in r['value']:
+                    tt = math.inf if t == 'inf' else (-math.inf if t == '-inf' else t)
+                    xx = math.inf if x == 'inf' else (-math.inf if x == '-inf' else x)
+                    if not isinstance(tt, (int, float)) or not isinstance(xx, (int, float)):
+                        return 'violation', dict(d2, observed={'malformed sample': [t, x]})
+                    val.append([tt / (dense.SCALE * k) if abs(tt) != math.inf else tt, xx])
+                if ref[m] is None:
+                    ref[m] = (val, v)
+                    continue
+                a, va = ref[m]
+                if not a or not val:
+                    if a != val:
+                        return 'violation', dict(d2, expected={'first spelling': a}, observed=val)
+                    continue
+                hi = tmax if m == 0 else min(max([t for t, _ in a if t != math.inf] or [0]), max([t for t, _ in val if t != math.inf] or [0]))
+                d = same_on(a, val, max(a[0][0], val[0][0], t0), hi)
+                if d is not None or a[0][0] != val[0][0]:
+                    return 'violation', dict(d2, expected={'spelling': va['spec'], 'default_unit': va['unit'], 'value_in_ticks': a}, observed={'value_in_ticks': val, 'differs': d})
+        return 'ok', None
+
+    def key(self, c):
+        return json.dumps([[v['spec'] for v in c['variants']], c['sigs']])
+
+    def features(self, c):
+        return ['dense'] + ['dense-unit:%s/%s' % (v['unit'], v['style']) for v in c['variants']]
+
+
 # ---------------------------------------------------------------- C10
 class D10(Extra):
     RULE = ('dense-time online monitors: past-time (and pastified bounded-future) formulas, a history of 0-3 update() batches, reset() (also twice, also before the '
